@@ -1,5 +1,5 @@
 """C08  quilt metadata is exact (DESIGN §4 C08)."""
-from .. import cfg, dataflow as df, guards, patterns as pt
+from .. import cfg, dataflow as df, guards, pathconst, patterns as pt
 from ..common import A, calls_named, dry_run_guards
 from ..facts import callee_of
 from . import c04
@@ -26,7 +26,7 @@ def mode_guards(fn):
         if t["k"] != "switch" or t["dty"] != "bool":
             continue
         e, neg = guards.switch_cond(fn, bb)
-        if not (isinstance(e, tuple) and e[0] == "call" and (e[1].endswith("PartialEq>::eq") or e[1].endswith("PartialEq>::ne")) and DO_BACKUPS in e[1]):
+        if not (isinstance(e, tuple) and e[0] == "call" and e[1].endswith(("PartialEq>::eq", "PartialEq>::ne", "PartialEq::eq", "PartialEq::ne")) and len(e[2]) == 2):
             continue
         var = None
         fld = False
@@ -47,14 +47,85 @@ def mode_guards(fn):
     return out
 
 
+def mode_matches(fn):
+    """`match config.do_backups { .. }`: discriminant switches on the backup mode."""
+    return pt.discr_switches(fn, lambda e, rv: (rv.get("adt") or "") == DO_BACKUPS and isinstance(e, tuple) and e[0] == "field" and e[2] == "do_backups")
+
+
 def prune_for_mode(fn, mode):
+    """CFG edges that are never taken when config.do_backups == mode (equality tests and matches on the mode)."""
     dis = set()
     for g in mode_guards(fn):
         if g["variant"] == mode:
             dis.add(g["false_edge"])
         else:
             dis.add(g["true_edge"])
+    for sw in mode_matches(fn):
+        named = set()
+        for var, edge in sw["edges"].items():
+            named.add(edge)
+            if var != mode:
+                dis.add(edge)
+        # the otherwise edge stands for the variants that have no arm of their own
+        if sw["otherwise"] not in named and mode not in (sw.get("rest") or []):
+            dis.add(sw["otherwise"])
+        # an edge shared by the selected variant and others must stay
+        if mode in sw["edges"]:
+            dis.discard(sw["edges"][mode])
     return dis
+
+
+def gate_atom(fn, finals, mode, dry, stopped):
+    def atom(e):
+        if isinstance(e, tuple) and e[0] == "field" and e[2] == "dry_run":
+            return dry
+        if isinstance(e, tuple) and e[0] == "call" and e[1].endswith(("PartialEq>::eq", "PartialEq>::ne", "PartialEq::eq", "PartialEq::ne")) and len(e[2]) == 2:
+            var, fld = None, False
+            for a in e[2]:
+                pv = guards.promoted_value(fn, a)
+                if pv and pv[0] == "enum" and pv[1] == DO_BACKUPS:
+                    var = pv[2]
+                if isinstance(a, tuple) and a[0] == "field" and a[2] == "do_backups":
+                    fld = True
+            if var is not None and fld:
+                return (mode == var) if e[1].endswith("::eq") else (mode != var)
+        if isinstance(e, tuple) and e[0] == "bin" and e[1] in ("Ne", "Eq", "Lt", "Gt", "Le", "Ge"):
+            a, b = e[2], e[3]
+            is_final = lambda x: isinstance(x, tuple) and x[0] in ("local", "param") and x[1] in finals
+            is_len = lambda x: df.is_call(x, "::len") and df.mentions(x, lambda y: isinstance(y, tuple) and y[0] == "field" and y[2] == "series_patches")
+            if is_final(a) and is_len(b):      # final OP len, with final <= len always
+                return {"Ne": stopped, "Eq": not stopped, "Lt": stopped, "Ge": not stopped, "Le": True, "Gt": False}[e[1]]
+            if is_len(a) and is_final(b):
+                return {"Ne": stopped, "Eq": not stopped, "Gt": stopped, "Le": not stopped, "Ge": True, "Lt": False}[e[1]]
+        return None
+    return atom
+
+
+def gate_variant(mode):
+    def variant(e, adt):
+        if adt == DO_BACKUPS and isinstance(e, tuple) and e[0] == "field" and e[2] == "do_backups":
+            return mode
+        return None
+    return variant
+
+
+def window_function(fn, arg, finals):
+    """{(kind, applied, n): down_to_index} - the value handed to the backup rollback as a function of the applied count and of
+    --backup-count, read as a term (if-then-else / match on the count / saturating_sub / max ...) and tabulated on a grid."""
+    from .. import seqmodel
+    e = df.operand_expr(fn, arg)
+    m = seqmodel.Model([("F", lambda x: isinstance(x, tuple) and x[0] in ("local", "param") and x[1] in finals),
+                        ("N", lambda x: isinstance(x, tuple) and x[0] == "field" and x[2] == 0 and isinstance(x[1], tuple) and x[1][0] == "downcast" and x[1][2] == "Last")],
+                       fn=fn, enumsyms=[("K", lambda x: isinstance(x, tuple) and x[0] == "field" and x[2] == "backup_count")])
+    out = {}
+    try:
+        for kind in ("All", "Last"):
+            for f in range(0, 5):
+                for n in range(0, 6):
+                    out[(kind, f, n if kind == "Last" else 0)] = m.val(e, {"F": f, "N": n, "K": kind})
+    except seqmodel.Unsupported as ex:
+        return None
+    return out
 
 
 def applied_count_names(fn):
@@ -111,77 +182,33 @@ def run(ck):
         return
     drivers = [(seq, "sequential driver"), (worker, "parallel save worker")]
     summaries = {}
+    windows = {}
     for fn, label in drivers:
         calls = calls_named(fn, "rollback_and_save_backup_files")
         if not ck.require(len(calls) == 1, "C08-R1", "one backup call in the %s" % label, "%d calls" % len(calls), fn.where()):
             continue
         bb, t, c = calls[0]
-        mg = mode_guards(fn)
-        ck.floor("C08-R1", "tests of config.do_backups in the %s" % label, len(mg), 2)
-        dr = dry_run_guards(fn)
-        dry_true = {g["true_edge"] for g in dr}
-        dry_false = {g["false_edge"] for g in dr}
         finals = applied_count_names(fn)
-        for mode in ("Always", "OnFail", "Never"):
-            dis = prune_for_mode(fn, mode)
-            reach_real = bb in cfg.reachable(fn, 0, disabled=dis | dry_true)
-            reach_dry = bb in cfg.reachable(fn, 0, disabled=dis | dry_false)
-            ck.require(not reach_dry, "C08-R1", "%s: --backup %s with --dry-run writes no backup" % (label, mode.lower()),
-                       "the backup writer is reachable with dry_run = true", fn.where(t))
-            if mode == "Never":
-                ck.require(not reach_real, "C08-R1", "%s: --backup never writes no backup" % label,
-                           "the backup writer is reachable with do_backups = Never", fn.where(t))
-            elif mode == "Always":
-                ck.require(reach_real, "C08-R1", "%s: --backup always reaches the backup writer" % label,
-                           "the backup writer is unreachable with do_backups = Always", fn.where(t))
-            else:
-                ck.require(reach_real, "C08-R1", "%s: --backup onfail can reach the backup writer" % label,
-                           "the backup writer is unreachable with do_backups = OnFail", fn.where(t))
-                # ... but only on the edge "applied count != series length"
-                ok = False
-                for gbb, gt in fn.terms():
-                    if gt["k"] != "switch" or gt["dty"] != "bool":
-                        continue
-                    e, neg = guards.switch_cond(fn, gbb)
-                    if not (isinstance(e, tuple) and e[0] == "bin" and e[1] in ("Ne", "Eq", "Lt", "Gt")):
-                        continue
-                    sides = [e[2], e[3]]
-                    has_final = any(isinstance(x, tuple) and x[0] in ("local", "param") and x[1] in finals for x in sides)
-                    has_len = any(df.is_call(x, "::len") and df.mentions(x, lambda y: isinstance(y, tuple) and y[0] == "field" and y[2] == "series_patches") for x in sides)
-                    if not (has_final and has_len):
-                        continue
-                    f, tr = guards.bool_edges(fn, gbb)
-                    if neg:
-                        f, tr = tr, f
-                    edge = (gbb, f) if e[1] == "Eq" else (gbb, tr)
-                    if bb in cfg.dominated_by_edge(fn, edge, disabled=dis | dry_true):
-                        ok = True
-                ck.require(ok, "C08-R1", "%s: onfail backups only when the push stopped early" % label,
-                           "with do_backups = OnFail the backup writer is reachable without the test applied != len(series)", fn.where(t))
-        # ---- material for R2: the gating truth table over (mode, dry_run, stopped early)
-        early = []
-        for gbb, gt in fn.terms():
-            if gt["k"] != "switch" or gt["dty"] != "bool":
-                continue
-            e, neg = guards.switch_cond(fn, gbb)
-            if not (isinstance(e, tuple) and e[0] == "bin" and e[1] in ("Ne", "Eq")):
-                continue
-            sides = [e[2], e[3]]
-            if any(isinstance(x, tuple) and x[0] in ("local", "param") and x[1] in finals for x in sides) and \
-                    any(df.is_call(x, "::len") for x in sides):
-                f, tr = guards.bool_edges(fn, gbb)
-                if neg:
-                    f, tr = tr, f
-                if e[1] == "Eq":
-                    f, tr = tr, f
-                early.append({"true_edge": (gbb, tr), "false_edge": (gbb, f)})
+        ck.floor("C08-R1", "tests of config.do_backups in the %s" % label, len(mode_guards(fn)) + 2 * len(mode_matches(fn)), 2)
+        # the gating truth table over (mode, dry_run, stopped early), by reachability under assumptions (pathconst): it does not matter
+        # whether the code tests the mode with ==, with a match, through a flag, or returns early on the negation
         table = {}
         for mode in ("Always", "OnFail", "Never"):
             for dry in (False, True):
                 for stopped in (False, True):
-                    dis = prune_for_mode(fn, mode) | (dry_false if dry else dry_true)
-                    dis |= {g["false_edge"] if stopped else g["true_edge"] for g in early}
-                    table[(mode, dry, stopped)] = bb in cfg.reachable(fn, 0, disabled=dis)
+                    table[(mode, dry, stopped)] = bb in pathconst.reach_under(fn, gate_atom(fn, finals, mode, dry, stopped), gate_variant(mode))
+        want = {(m, d, st): (not d and (m == "Always" or (m == "OnFail" and st))) for m in ("Always", "OnFail", "Never") for d in (False, True) for st in (False, True)}
+        for mode in ("Always", "OnFail", "Never"):
+            ck.require(not table[(mode, True, False)] and not table[(mode, True, True)], "C08-R1", "%s: --backup %s with --dry-run writes no backup" % (label, mode.lower()),
+                       "the backup writer is reachable with dry_run = true", fn.where(t))
+        ck.require(not table[("Never", False, False)] and not table[("Never", False, True)], "C08-R1", "%s: --backup never writes no backup" % label,
+                   "the backup writer is reachable with do_backups = Never", fn.where(t))
+        ck.require(table[("Always", False, False)] and table[("Always", False, True)], "C08-R1", "%s: --backup always reaches the backup writer" % label,
+                   "the backup writer is unreachable with do_backups = Always", fn.where(t))
+        ck.require(table[("OnFail", False, True)], "C08-R1", "%s: --backup onfail can reach the backup writer" % label,
+                   "the backup writer is unreachable with do_backups = OnFail after a push that stopped early", fn.where(t))
+        ck.require(not table[("OnFail", False, False)], "C08-R1", "%s: onfail backups only when the push stopped early" % label,
+                   "with do_backups = OnFail the backup writer is reachable although every patch of the series applied", fn.where(t))
         gset = dominating_guards(fn, bb, finals)
         arg = t["args"][1]
         pl = pt.trace_place(fn, arg)
@@ -192,6 +219,7 @@ def run(ck):
                     val = canon(fn, df.rvalue_expr(fn, dd[3]["rv"]), finals)
                     defs.append((val, frozenset(dominating_guards(fn, dd[1], finals) - gset)))
         summaries[label] = (table, set(defs))
+        windows[label] = window_function(fn, arg, finals)
         # ---- R3
         for dd in (df.defs_of(fn).all(pl["l"]) if pl is not None and "p" not in pl else []):
             if dd[0] != "stmt":
@@ -238,9 +266,14 @@ def run(ck):
                    ok_detail="12-row truth table over (mode, dry_run, stopped early) agrees")
         ck.require(g1 == want, "C08-R2", "gating truth table matches the documented modes",
                    "rows that differ from always / onfail-and-stopped / never: %s" % sorted(k for k in g1 if g1[k] != want[k]), seq.where())
-        ck.require(d1 == d2 and len(d1) >= 2, "C08-R2", "both drivers compute the backup window identically",
-                   "sequential: %s; parallel: %s" % (sorted((v, sorted(g)) for v, g in d1 - d2), sorted((v, sorted(g)) for v, g in d2 - d1)), seq.where(),
-                   ok_detail="%d definitions of down_to_index agree" % len(d1))
+        w1, w2 = windows.get("sequential driver"), windows.get("parallel save worker")
+        same = w1 is not None and w2 is not None and w1 == w2
+        ck.require(same, "C08-R2", "both drivers compute the backup window identically",
+                   "first patch backed up as a function of (applied count, --backup-count): sequential %s, parallel %s" % (w1, w2), seq.where(),
+                   ok_detail="down_to_index agrees on all %d sampled (applied count, backup count) pairs, e.g. %s" % (len(w1 or ()), sorted((w1 or {}).items())[:4]))
+        expect = {k: (0 if k[0] == "All" else max(k[1] - k[2], 0)) for k in (w1 or {})}
+        ck.require(w1 == expect and bool(w1), "C08-R2", "backup window = the last N applied patches (all of them for 'all')",
+                   "down_to_index differs from max(applied - N, 0): %s" % sorted((k, v, expect.get(k)) for k, v in (w1 or {}).items() if expect.get(k) != v)[:4], seq.where())
 
     # ---- R4 / R5 in rollback_and_save_backup_files
     sb = calls_named(rb, "rapidquilt::apply::common::save_backup_file")
@@ -305,7 +338,7 @@ def run(ck):
     # ---- R6
     from . import c09
     sap = prog.one(A["save_applied"])
-    loops = pt.iterator_loops(sap)
-    fw = [il for il in loops if "core::slice::iter::Iter<" in il["iter_ty"] and "Rev<" not in il["iter_ty"] and il["callee"]["path"].endswith("Iterator::next")]
-    ck.require(len(fw) == 1 and len(loops) == 1, "C08-R6", "applied names appended in series order",
-               "the log writer iterates %s" % [il["iter_ty"] for il in loops], sap.where())
+    its = pt.iterations(sap, prog)
+    fw = [it for it in its if "core::slice::iter::Iter<" in it["iter_ty"] and it["forward"]]
+    ck.require(len(fw) == 1 and len(its) == 1, "C08-R6", "applied names appended in series order",
+               "the log writer iterates %s" % [(it["kind"], it["iter_ty"]) for it in its], sap.where())
